@@ -27,6 +27,10 @@ def task(name, props, functions=(), kind="proof"):
     return deco
 
 
+class ContractAbort(Exception):
+    pass
+
+
 class E:
     """what a task sees"""
 
@@ -68,6 +72,30 @@ class E:
 
     def method(self, obj, name, *args, **kwargs):
         return self.I.call_method(obj, name, list(args), kwargs)
+
+    def require(self, name, cond, **info):
+        """a structural fact about what the real code did (a Python bool): recorded as an obligation; when it is false the
+        rest of the contract cannot be stated on this path, which ends (as a refuted obligation, not as a checker crash)"""
+        self.prove(name, bool(cond), **({} if cond else info))
+        if not cond:
+            raise ContractAbort(name)
+
+    def loop_body(self, qual, local_vars, ordinal=0):
+        """executes ONE iteration of the `ordinal`-th `for` loop (source order) of the real function `qual`, from the given
+        local variables (which must include the loop target); returns the local variables afterwards.  This is the
+        inductive step of a loop contract: a Python `for` over a sequence is the left fold of its body."""
+        import ast
+        from .interp import Env
+        from .values import FuncVal, BoundMethod
+        fv = self.I.qual(qual)
+        if isinstance(fv, BoundMethod):
+            fv = fv.func
+        assert isinstance(fv, FuncVal), f"{qual} is not a function"
+        loops = sorted((n for n in ast.walk(fv.node) if isinstance(n, ast.For)), key=lambda n: (n.lineno, n.col_offset))
+        node = loops[ordinal]
+        env = Env(dict(local_vars), parent=fv.env, owner=fv.owner)
+        self.I.exec_block(node.body, env)
+        return env.vars, node
 
     def attempt(self, thunk):
         """('ok', value) | ('raise', PyRaise)"""
@@ -157,6 +185,8 @@ def run_task(tdef: TaskDef, repo: Repo, theory_factory, max_paths=4000, timeout_
             res.paths += 1
         except Infeasible:
             res.infeasible += 1
+        except ContractAbort:
+            res.paths += 1          # a required shape of the result was refuted (obligation recorded); the path ends here
         except Unsupported as e:
             res.paths += 1
             res.undecided.append((f"unsupported: {e}", list(ctx.decisions[: ctx.pos])))
